@@ -21,6 +21,8 @@ def _module_for(prop: str):
 
 def cmd_check(prop: str, tier: str, seed: int) -> int:
     timer = common.Timer()
+    if tier == "thorough":
+        os.environ.setdefault("VT_CELL_BUDGET_S", "2700")  # per exploration cell; the quick tier keeps 900 s
     mod = _module_for(prop)
     try:
         res: common.Result = mod.run(tier, seed)
